@@ -10,6 +10,9 @@ use bourse_book::Market;
 use serde::{Deserialize, Serialize};
 
 pub const MARKET_LEVELS: [usize; 6] = [1, 2, 3, 5, 10, 24];
+/// asset counts beyond 4 that are instantiated (with 3 and 10 levels only): two-digit asset indices, counts that
+/// are / are not powers of two
+pub const MANY_ASSETS: [usize; 4] = [8, 11, 12, 16];
 
 pub trait DynMarket {
     fn assets(&self) -> usize;
@@ -154,6 +157,8 @@ macro_rules! by_al {
             (2, 1) => $f::<2, 1>($($arg),*), (2, 2) => $f::<2, 2>($($arg),*), (2, 3) => $f::<2, 3>($($arg),*), (2, 5) => $f::<2, 5>($($arg),*), (2, 10) => $f::<2, 10>($($arg),*), (2, 24) => $f::<2, 24>($($arg),*),
             (3, 1) => $f::<3, 1>($($arg),*), (3, 2) => $f::<3, 2>($($arg),*), (3, 3) => $f::<3, 3>($($arg),*), (3, 5) => $f::<3, 5>($($arg),*), (3, 10) => $f::<3, 10>($($arg),*), (3, 24) => $f::<3, 24>($($arg),*),
             (4, 1) => $f::<4, 1>($($arg),*), (4, 2) => $f::<4, 2>($($arg),*), (4, 3) => $f::<4, 3>($($arg),*), (4, 5) => $f::<4, 5>($($arg),*), (4, 10) => $f::<4, 10>($($arg),*), (4, 24) => $f::<4, 24>($($arg),*),
+            (8, 3) => $f::<8, 3>($($arg),*), (8, 10) => $f::<8, 10>($($arg),*), (11, 3) => $f::<11, 3>($($arg),*), (11, 10) => $f::<11, 10>($($arg),*),
+            (12, 3) => $f::<12, 3>($($arg),*), (12, 10) => $f::<12, 10>($($arg),*), (16, 3) => $f::<16, 3>($($arg),*), (16, 10) => $f::<16, 10>($($arg),*),
             _ => panic!("harness: unsupported market shape ({}, {})", $a, $l),
         }
     };
